@@ -982,6 +982,10 @@ class Engine:
       finally:
         self.guards.pop()
       return sv.mk_bool(z3.Implies(a, b))
+    if dotted_name(f) in ('copy.deepcopy', 'copy.copy') and len(n.args) == 1 and not n.keywords:
+      # values of the encoding are immutable terms without identity: a copy is the same value, and
+      # rebinding / updating the copy never affects the original (no aliasing in the encoding)
+      return self.ev(n.args[0], st, want) if want is not None else self.ev(n.args[0], st)
     callee = self.ev(f, st)
     if not isinstance(callee, Callable_):
       raise Unsupported('call of non-callable at line %d' % n.lineno)
@@ -1038,10 +1042,16 @@ class Engine:
       if v.t.kind in ('set', 'dict'):
         card = uf('card_%s' % sv._mangle(v.t), [sv.zsort(v.t)], z3.IntSort())
         self.u.setdefault('_cards', {})[sv._mangle(v.t)] = v.t
+        self.assume(st, card(v.z) >= 0)
         return sv.mk_int(card(v.z))
       raise Unsupported('len of %r' % (v.t,))
     if name == 'str':
-      return sv.mk_str(to_str(self.ev(args[0], st)))
+      a0 = self.ev(args[0], st)
+      if self.u.get('opaque_int_str') and isinstance(a0, V) and a0.t.kind == 'int':
+        # str on integers as an uninterpreted function: whatever is proved holds for every function
+        # from integers to strings, in particular for Python's decimal rendering
+        return sv.mk_str(uf('opaque_int_str', [z3.IntSort()], z3.StringSort())(a0.z))
+      return sv.mk_str(to_str(a0))
     if name == 'isinstance':
       v = self.ev(args[0], st)
       tn = args[1].id if isinstance(args[1], ast.Name) else None
@@ -1535,6 +1545,17 @@ class Engine:
           self.emit(st, 'safe-index', z3.And(0 <= idx.z, idx.z < ln), t, 'del index in range')
           self.assign(t.value, list_delete(base, idx.z), st)
           continue
+        if base.t.kind == 'dict' and not isinstance(t.slice, ast.Slice):
+          # del d[k]: KeyError unless k in d; afterwards k is absent, every other entry is unchanged and
+          # the number of entries is one less (instance of the cardinality law at this key)
+          key = coerce(self.ev(t.slice, st), base.t.args[0])
+          self.emit(st, 'safe-key', z3.Select(sv.d_keys(base), key.z), t, 'del key present')
+          new = sv.mk_dict(base.t, z3.Store(sv.d_keys(base), key.z, z3.BoolVal(False)), sv.d_vals(base))
+          card = uf('card_%s' % sv._mangle(base.t), [sv.zsort(base.t)], z3.IntSort())
+          self.assume(st, card(new.z) == card(base.z) - 1)
+          self.assume(st, card(new.z) >= 0)
+          self.assign(t.value, new, st)
+          continue
       raise Unsupported('del target at line %d' % s.lineno)
     return [(st, NORMAL, None)]
 
@@ -1638,9 +1659,14 @@ class Engine:
           names.add(n.target.id)
     return names
 
-  def loop_spec(self):
-    i = self.loop_counter
-    self.loop_counter += 1
+  def loop_spec(self, node=None):
+    # loops are numbered by source order inside the unit (a loop reached on two paths is one loop)
+    key = (getattr(node, 'lineno', None), getattr(node, 'col_offset', None))
+    ids = self.__dict__.setdefault('loop_ids', {})
+    if key not in ids:
+      ids[key] = self.loop_counter
+      self.loop_counter += 1
+    i = ids[key]
     loops = self.u.get('loops', {})
     if i not in loops:
       raise Unsupported('loop %d has no invariant in the sidecar' % i)
@@ -1688,7 +1714,7 @@ class Engine:
   def s_While(self, s, st):
     if s.orelse:
       raise Unsupported('while-else')
-    idx, spec = self.loop_spec()
+    idx, spec = self.loop_spec(s)
     tag = '[loop%d' % idx
     invs = spec.get('inv', [])
     entry_env = dict(st.env)
@@ -1740,7 +1766,7 @@ class Engine:
   def s_For(self, s, st):
     if s.orelse:
       raise Unsupported('for-else')
-    idx, spec = self.loop_spec()
+    idx, spec = self.loop_spec(s)
     tag = '[loop%d' % idx
     invs = spec.get('inv', [])
     # iteration domain
